@@ -522,7 +522,9 @@ PROPS.update({
     'C16': dict(
         explanation="theorems: the model is a total function (accepted by Lean's termination checker) whose output is a list of items or error segments and is deterministic. Transfer to the implementation: catch_unwind around every expansion of every L1 case, each expanded twice; structure-aware mutation fuzzer over the test-suite / documentation corpus with rustc's parser as second opinion.",
         theorems=[('DeriveExModel.Props.Tables', ['DX.trait_table_model', 'DX.trait_table_complete']), (CMP + 'C16', ['DX.output_shape', 'DX.attr_output_nonempty', 'DX.derive_rejects_with_one_error',
-                                 'DX.core_error_single', 'DX.deterministic'])],
+                                 'DX.core_error_single', 'DX.deterministic', 'DX.struct_entry_nonempty', 'DX.enum_entry_nonempty',
+                                 'DX.entry_answered', 'DX.cmp_render_nonempty', 'DX.ops_render_nonempty',
+                                 'DX.attr_is_item_then_core_struct', 'DX.attr_is_item_then_core_enum'])],
         l1=[('wild', 5000, 200000), ('strip', 2000, 50000), ('impl', 2000, 50000), ('cmpWild', 2000, 50000), ('other', 500, 5000)],
         labels=r'.',
         kinds=('panic', 'nondet', 'parse', 'roundtrip'),
